@@ -167,6 +167,12 @@ func (gta *GlobalTSOAllocator) GenerateTSO(count uint32) (pdpb.Timestamp, error)
 	// No dc-locations configured in the cluster, use the normal Global TSO generation way.
 	// (without synchronization with other Local TSO Allocators)
 	if len(dcLocationMap) == 0 {
+		// Before the first dc-location check has completed the map is empty whatever the cluster looks like.
+		if !gta.allocatorManager.dcLocationsLoaded() {
+			if inEtcd, err := gta.allocatorManager.GetClusterDCLocationsFromEtcd(); err != nil || len(inEtcd) > 0 {
+				return pdpb.Timestamp{}, errs.ErrGenerateTimestamp.FastGenByArgs("dc-locations are not loaded yet")
+			}
+		}
 		return gta.timestampOracle.getTS(gta.leadership, count, 0)
 	}
 
